@@ -38,6 +38,40 @@ CHECKS = {
         note="Trusts TLC, the materialiser and the JSON projection; glob forms in tables are restricted to those with no "
              "C05 subtlety; the lenient reading of 'override' is stated in the evidence assumptions.",
         ref="5/C04"),
+    "C06": dict(
+        technique="TLA+ set-algebra requirement (Project.tla Missing/Unused/Bad/Deprecated/NoExt) vs transcribed "
+                  "mechanism (MMissingOf, MUnused, ...) model-checked by TLC; TLC-enumerated class x use x provision "
+                  "cases concretised with real SPDX identifiers; TLC trace validation of lint --json",
+        text="TLC checks M |= R and the mutual consistency of the five sets on every class x use x provision cell, and "
+             "judges the five reported sets (plus used_licenses and per-identifier file lists) for every cell with "
+             "several real identifiers per class, TLC-sampled two-identifier projects and, thorough, every identifier "
+             "of the bundled SPDX lists.",
+        note="Identifier classes come from the bundled SPDX JSON files read directly; LicenseRef- well-formedness is the "
+             "SPDX idstring grammar; the lenient cell (unprovided LicenseRef- may also be 'bad') is stated.",
+        ref="5/C06"),
+    "C01": dict(
+        technique="TLA+ compliance predicate and defect ledger (Lint.tla) model-checked by TLC (verdict sound and "
+                  "complete w.r.t. the ledger, M |= R); all defect combinations materialised with fault injection; TLC "
+                  "trace validation of exit status, compliant flag and all eight category sets",
+        text="Every combination of per-file information states and inventory defects of the compliant skeleton (complete), "
+             "plus TLC-sampled projects of the Inventory and Precedence generators, is linted for real and judged by TLC "
+             "for exit status, summary flag, and exact equality of every category (nothing else reported, non-covered "
+             "distractor files never shown).",
+        note="Read errors are injected through a sys.addaudithook shim (root ignores permissions); trusts TLC, the "
+             "materialiser and the JSON projection.",
+        ref="5/C01"),
+    "C03": dict(
+        technique="TLA+ requirement CoverReq (three-valued: must / must not / unpinned) vs walk-with-pruning mechanism "
+                  "model-checked by TLC; TLC-enumerated directory-context x name-class x type x VCS-wish nodes built as "
+                  "real trees and Git repositories, `git check-ignore` as environment oracle; TLC trace validation of "
+                  "the examined set via lint, spdx, lint-file and annotate -r",
+        text="Every single-node tree over 16 directory contexts x 31 name classes x 4 file types (complete), Git "
+             "repositories over context x tracking/ignore wish, and TLC-sampled six-node trees are examined through four "
+             "commands; TLC decides for each that no covered file is skipped and no excluded file (or file outside the "
+             "requested directory) is touched.",
+        note="Git's own check-ignore answer is trusted as the meaning of 'ignored'; one open finding (KF-C03-1) is matched "
+             "by a TLA+ signature; Mercurial/Jujutsu/Pijul are not installed and not exercised.",
+        ref="5/C03"),
 }
 
 NOT_YET = {}
